@@ -1,4 +1,4 @@
-import Fabio.Model.C07Chain
+import Fabio.Lemmas.C07Chain
 import Fabio.Props.C17
 /-!
 C07, second sentence, over the handler chain `ServeHTTP` builds (`Fabio.Model.C07Chain`): for every reply of the
@@ -23,67 +23,9 @@ No-route page: after any sequence of deliveries by the registry the page served 
 empty page included (`page_is_last_delivered`).
 -/
 namespace Fabio.Props.C07Chain
-open Fabio.Model Fabio.Model.C07Chain
+open Fabio.Model Fabio.Model.C07Chain Fabio.Lemmas.C07Chain
 
 variable {Z : Type}
-
-/-! ### the call sequence of the reverse proxy, seen by C17's `decision` -/
-
-theorem decision_interim (C : C17.Cfg Z) (cf : Bool) (h : Hdr) (cs : List Nat) (rest : List C17.Op)
-    (hcs : ∀ c ∈ cs, C17.informational c = true) :
-    C17.decision C cf h (cs.map C17.Op.wh ++ rest) = C17.decision C cf h rest := by
-  induction cs with
-  | nil => rfl
-  | cons c cs ih =>
-    have hc : C17.informational c = true := hcs c (by simp)
-    simp only [List.map_cons, List.cons_append, C17.decision, hc, if_true]
-    exact ih (fun c' hc' => hcs c' (by simp [hc']))
-
-theorem decision_adds (C : C17.Cfg Z) (cf : Bool) (h : Hdr) (l : List (String × String)) (rest : List C17.Op) :
-    C17.decision C cf h (l.map (fun kv => C17.Op.add kv.1 kv.2) ++ rest) =
-      C17.decision C cf (l.foldl (fun h kv => C17.hadd h kv.1 kv.2) h) rest := by
-  induction l generalizing h with
-  | nil => rfl
-  | cons kv l ih =>
-    simp only [List.map_cons, List.cons_append, C17.decision, List.foldl_cons]
-    exact ih _
-
-/-- the gzip layer takes its decision at the reverse proxy's `WriteHeader(status)`, on the header map that holds
-all of the upstream's lines -/
-theorem script_decision (C : C17.Cfg Z) (cf : Bool) (h : Hdr) (r : Reply) (hw : r.wellFormed) :
-    C17.decision C cf h r.script = some (r.headersOn h, r.status) := by
-  unfold Reply.script
-  rw [decision_interim C cf h _ _ hw.1, decision_adds]
-  simp [C17.decision, hw.2, Reply.headersOn]
-
-theorem writesOf_whs (cs : List Nat) (rest : List C17.Op) :
-    C17.writesOf (cs.map C17.Op.wh ++ rest) = C17.writesOf rest := by
-  induction cs with
-  | nil => rfl
-  | cons c cs ih => simpa [C17.writesOf] using ih
-
-theorem writesOf_adds (l : List (String × String)) (rest : List C17.Op) :
-    C17.writesOf (l.map (fun kv => C17.Op.add kv.1 kv.2) ++ rest) = C17.writesOf rest := by
-  induction l with
-  | nil => rfl
-  | cons kv l ih => simpa [C17.writesOf] using ih
-
-theorem writesOf_ws (cs : List Bytes) : C17.writesOf (cs.map C17.Op.w) = cs := by
-  induction cs with
-  | nil => rfl
-  | cons c cs ih => simp [C17.writesOf, ih]
-
-theorem writesOf_script (r : Reply) : C17.writesOf r.script = r.chunks := by
-  unfold Reply.script
-  rw [writesOf_whs, writesOf_adds]
-  simp [C17.writesOf, writesOf_ws]
-
-/-- the reverse proxy's call sequence against the bare writer shows the reply as it is — whatever sniffer and
-whatever Flusher capability: this is what `Reply.asIs` abbreviates -/
-theorem bare_replay (C : C17.Cfg Z) (cf : Bool) (h0 : Hdr) (r : Reply) (hw : r.wellFormed) :
-    (C17.bareRun C cf (h0, {}) r.script).2.obs (C17.bareRun C cf (h0, {}) r.script).1 = r.asIs h0 := by
-  rw [Fabio.Lemmas.C17.bare_obs, script_decision C cf h0 r hw]
-  simp [Reply.asIs, writesOf_script]
 
 /-! ### the sentences -/
 
